@@ -676,8 +676,12 @@ def run_property(here, repo, prop, cfg, tier, seed, tmp, t0):
         "wall_s": round(wall, 2),
         "violations": len(violations),
     }
-    os.makedirs(os.path.join(here, "evidence"), exist_ok=True)
-    json.dump(ev, open(os.path.join(here, "evidence", prop + ".json"), "w"), indent=1)
+    if os.path.realpath(repo) == "/repo" and prop != "ALL":
+        os.makedirs(os.path.join(here, "evidence"), exist_ok=True)
+        json.dump(ev, open(os.path.join(here, "evidence", prop + ".json"), "w"), indent=1)
+    else:
+        # development runs against a scratch copy never touch the committed evidence
+        json.dump(ev, open(os.path.join(tmp, prop + ".evidence.json"), "w"), indent=1)
     if violations:
         print("FAIL property=%s : %d/%d obligations discharged, %d violation(s), %.1fs" % (prop, n_disch, n_total, len(violations), wall))
         return 1
